@@ -253,11 +253,12 @@ func (g *G) genAny() ref.Val {
 // prefix parameters
 
 type pslot struct {
-	kind   byte // 'n' or 'c'
-	lo, hi int
-	hashOK bool
-	p      int  // chance in 100 that the slot is given
-	noNil  bool // a v parameter given nil is a known finding for this directive
+	kind    byte // 'n' or 'c'
+	lo, hi  int
+	hashOK  bool
+	hashMix bool // # is drawn in a mixture (where any number of arguments left is a legal value)
+	p       int  // chance in 100 that the slot is given
+	noNil   bool // a v parameter given nil is a known finding for this directive
 }
 
 var cleanPadChars = []rune("0 .-_+!;\"")
@@ -274,18 +275,46 @@ func (g *G) quoted() string {
 }
 
 // params renders the parameter list for the slots and returns the generators
-// of the arguments its v parameters consume.
+// of the arguments its v parameters consume. One directive in three is a
+// mixture: every slot draws independently and evenly from literal, omitted, v
+// (given a value or nil) and, for integer slots, #; so v and # meet in one
+// parameter list in every order. Elsewhere a slot is given with its own
+// probability and is mostly a literal.
 func (g *G) params(slots []pslot) (string, []func(r *rand.Rand) ref.Val) {
 	r := g.r
 	var parts []string
 	var pre []func(r *rand.Rand) ref.Val
+	mix := r.IntN(3) == 0
 	for _, s := range slots {
-		if s.p <= r.IntN(100) {
+		lo, hi := s.lo, s.hi
+		k := r.IntN(10)
+		if mix {
+			if s.p == 0 {
+				parts = append(parts, "")
+				continue
+			}
+			// 0 v, 1 #, 2 literal, 3 omitted
+			switch r.IntN(5) {
+			case 0, 1:
+				k = 0
+			case 2:
+				k = 1
+				if !(s.hashOK || s.hashMix) || s.kind != 'n' {
+					k = 2
+				}
+			case 3:
+				k = 2
+			default:
+				if s.p < 100 {
+					parts = append(parts, "")
+					continue
+				}
+				k = 2
+			}
+		} else if s.p <= r.IntN(100) {
 			parts = append(parts, "")
 			continue
 		}
-		lo, hi := s.lo, s.hi
-		k := r.IntN(10)
 		switch {
 		case k == 0: // v
 			vch := "v"
@@ -293,10 +322,14 @@ func (g *G) params(slots []pslot) (string, []func(r *rand.Rand) ref.Val) {
 				vch = "V"
 			}
 			parts = append(parts, vch)
+			nilP := 8
+			if mix {
+				nilP = 3
+			}
 			if s.kind == 'n' {
 				nilOK := !s.noNil || g.use("v-nil")
 				pre = append(pre, func(r *rand.Rand) ref.Val {
-					if r.IntN(8) == 0 && nilOK {
+					if r.IntN(nilP) == 0 && nilOK {
 						return nilv()
 					}
 					return iv(int64(lo + r.IntN(hi-lo+1)))
@@ -304,7 +337,7 @@ func (g *G) params(slots []pslot) (string, []func(r *rand.Rand) ref.Val) {
 			} else {
 				dirty := g.use("nonascii")
 				pre = append(pre, func(r *rand.Rand) ref.Val {
-					if r.IntN(8) == 0 {
+					if r.IntN(nilP) == 0 {
 						return nilv()
 					}
 					if dirty {
@@ -313,7 +346,7 @@ func (g *G) params(slots []pslot) (string, []func(r *rand.Rand) ref.Val) {
 					return cv(fwPick(r, []rune("0 .-_+!=*x,a~'#;Z")))
 				})
 			}
-		case k == 1 && s.hashOK:
+		case k == 1 && (s.hashOK || (mix && s.hashMix)) && s.kind == 'n':
 			parts = append(parts, "#")
 		case s.kind == 'n':
 			parts = append(parts, fmt.Sprint(lo+r.IntN(hi-lo+1)))
@@ -375,10 +408,11 @@ func (g *G) mincolSlot() pslot {
 // intDirFor renders an integer directive; the caller supplies the argument.
 func (g *G) intDirText() (string, []func(r *rand.Rand) ref.Val) {
 	if g.use("radix") {
-		ptxt, pre := g.params([]pslot{{kind: 'n', lo: 2, hi: 36, p: 100}, g.mincolSlot(), {kind: 'c', p: 30}, {kind: 'c', p: 30}, {kind: 'n', lo: 1, hi: 4, p: 30}})
+		ptxt, pre := g.params([]pslot{{kind: 'n', lo: 2, hi: 36, p: 100}, g.mincolSlot(), {kind: 'c', p: 30}, {kind: 'c', p: 30}, {kind: 'n', lo: 1, hi: 4, p: 30, hashMix: true}})
 		return "~" + ptxt + g.mods(true, true) + g.letter('r'), pre
 	}
-	ptxt, pre := g.params([]pslot{g.mincolSlot(), {kind: 'c', p: 35}, {kind: 'c', p: 35}, {kind: 'n', lo: 1, hi: 4, p: 35}})
+	// (# as the comma interval is at least 1: the integer itself is still to come)
+	ptxt, pre := g.params([]pslot{g.mincolSlot(), {kind: 'c', p: 35}, {kind: 'c', p: 35}, {kind: 'n', lo: 1, hi: 4, p: 35, hashMix: true}})
 	return "~" + ptxt + g.mods(true, true) + g.letter("dbox"[g.r.IntN(4)]), pre
 }
 
@@ -401,7 +435,7 @@ func (g *G) intDir() tmpl {
 }
 
 func (g *G) asDirText() (string, []func(r *rand.Rand) ref.Val) {
-	ptxt, pre := g.params([]pslot{g.mincolSlot(), {kind: 'n', lo: 1, hi: 5, p: 25}, {kind: 'n', lo: 0, hi: 4, p: 25}, {kind: 'c', p: 30}})
+	ptxt, pre := g.params([]pslot{g.mincolSlot(), {kind: 'n', lo: 1, hi: 5, p: 25, hashMix: true}, {kind: 'n', lo: 0, hi: 4, p: 25, hashMix: true}, {kind: 'c', p: 30}})
 	return "~" + ptxt + g.mods(true, true) + g.letter("as"[g.r.IntN(2)]), pre
 }
 
